@@ -9,7 +9,7 @@ from __future__ import annotations
 
 import ast
 
-from ..astutil import calls_in, const_value, dotted, enclosing_stmt, handler_catches, kwarg, src, walk_local
+from ..astutil import deref, calls_in, const_value, dotted, enclosing_stmt, handler_catches, kwarg, src, walk_local
 from ..loader import AnalysisError
 from ..terms import NONE, Evaluator, alts, contains, find, show, strip_sites, walk
 from .common import backend_events, const_of, evaluate, func_label, loc, repo_cls, term_has_const
@@ -421,19 +421,20 @@ def r7_nonce_layout(ctx):
         nonce, ct = r[2], r[3]
         if nonce[0] == 'call' and nonce[1] == ('name', 'os.urandom') and len(nonce[2]) == 1:
             nlen = nonce[2][0]
-            ok = ct[0] == 'call' and ct[1][0] == 'attr' and ct[1][2] == 'encrypt' and ct[2][0] == nonce and ct[2][1] == ('param', 'data')
+            ok = ct[0] == 'call' and ct[1][0] == 'attr' and ct[1][2] == 'encrypt' and ct[2][0] == nonce and ct[2][1][0] == 'param'
     ctx.check(ok, 'C14.R7', f'{func_label(enc)}|ciphertext-layout', loc(enc, enc.node), 'encrypt returns nonce || AEAD(nonce, data) with nonce = os.urandom(n)', f'encrypt layout changed: {show(r, limit=160)}')
     # decrypt splits at the same n
     splits = set()
+    dparams = [a.arg for a in dec.node.args.posonlyargs + dec.node.args.args][1:]
+    dname = dparams[0] if dparams else None
     for n in ast.walk(dec.node):
-        if isinstance(n, ast.Subscript) and isinstance(n.slice, ast.Slice) and isinstance(n.value, ast.Name) and n.value.id == 'data':
+        if isinstance(n, ast.Subscript) and isinstance(n.slice, ast.Slice) and isinstance(n.value, ast.Name) and n.value.id == dname:
             b = n.slice.upper if n.slice.upper is not None else n.slice.lower
-            splits.add(ast.dump(b))
-    ev2 = Evaluator(corpus, depth=2)
+            splits.add(ast.dump(deref(dec.node, b)))
     want = None
     for n in ast.walk(enc.node):
         if isinstance(n, ast.Call) and dotted(n.func) == 'os.urandom' and n.args:
-            want = ast.dump(n.args[0])
+            want = ast.dump(deref(enc.node, n.args[0]))
     ctx.check(
         len(splits) == 1 and want is not None and splits == {want},
         'C14.R7',
